@@ -153,6 +153,15 @@ func main() {
 	})
 }
 
+// repoRoot is the tree under test: /repo, or the scratch worktree of a drill
+// (the runner exports VERIF_REPO and builds this binary against that tree).
+func repoRoot() string {
+	if r := os.Getenv("VERIF_REPO"); r != "" {
+		return r
+	}
+	return "/repo"
+}
+
 type job struct {
 	u     *universe
 	roots []rootRef
@@ -164,7 +173,7 @@ func run(c *fw.Ctx) {
 	var jobs []job
 	// 1. the repository's own test universes
 	for _, sys := range []resolve.System{resolve.NPM, resolve.Maven, resolve.PyPI} {
-		cases, notes := testdataUniverses("/repo", sys)
+		cases, notes := testdataUniverses(repoRoot(), sys)
 		for _, n := range notes {
 			c.Note(n)
 		}
